@@ -7,7 +7,10 @@ from concurrent.futures import ThreadPoolExecutor
 D = os.path.join(_VERIF, "seeded_harmless")
 MAP = [("common/parse.rs", ["C02", "C03"]), ("common/reference.rs", ["C05", "C06"]), ("common/path.rs", ["C12", "C09", "C16"]),
        ("common/path_mut.rs", ["C10", "C09"]), ("common/authority_mut.rs", ["C11"]), ("utils.rs", ["C05"]), ("common/authority.rs", ["C03"]),
-       ("src/uri/", ["C13", "C07", "C08"]), ("src/iri/", ["C13", "C07", "C08"])]
+       ("src/uri/", ["C13", "C07", "C08"]), ("src/iri/", ["C13", "C07", "C08"]),
+       # facade wrappers proved by R26 (contracts/deleg.vspec) belong to the checks of their delegates
+       ("uri/path.rs", ["C12"]), ("iri/path.rs", ["C12"]), ("uri/authority.rs", ["C03"]), ("iri/authority.rs", ["C03"]),
+       ("uri/reference.rs", ["C02", "C05"]), ("iri/reference.rs", ["C02", "C05"]), ("uri/mod.rs", ["C02", "C05"]), ("iri/mod.rs", ["C02", "C05"])]
 ONLY = sys.argv[1:]
 def one(pf):
     txt = open(pf).read()
